@@ -425,6 +425,39 @@ func immutStream(r *Run) {
 			}
 		}
 	}
+	// a second fixed family: templates with per-render state (cycle counters, assign/capture, loop
+	// variables, forloop) rendered, then rendered with bindings that make the render FAIL part-way
+	// (inside the loop, after some state has been built up), then rendered again with the first bindings
+	{
+		i := func(n int64) *V { return VInt(0, n) }
+		good := map[string]*V{"ns": VAnys(i(1), i(2), i(3), i(4)), "k": i(2)}
+		bads := []map[string]*V{
+			{"ns": VAnys(i(1), i(0), i(3), i(4)), "k": i(2)}, {"ns": VAnys(i(1), i(2), i(0)), "k": i(2)}, {"ns": VAnys(i(1), i(2), i(3), i(4), i(0)), "k": i(0)},
+		}
+		tmpls := []string{
+			"{% for n in ns %}{% cycle 'a','b','c' %}{{ 12 | divided_by: n }} {% endfor %}",
+			"{% for n in ns %}{% cycle 'g': 'x','y' %}{% cycle 'a','b','c' %}{{ 12 | divided_by: n }}{% endfor %}",
+			"{% tablerow n in ns cols:2 %}{% cycle 'a','b','c' %}{{ 12 | divided_by: n }}{% endtablerow %}",
+			"{% for n in ns %}{% for m in ns %}{% cycle 'a','b','c' %}{{ 12 | divided_by: m }}{% endfor %};{% endfor %}",
+			"{% assign acc = 0 %}{% for n in ns %}{% assign acc = acc | plus: n %}{{ acc }}/{{ 12 | divided_by: n }} {% endfor %}{{ acc }}{{ n }}{{ forloop.index }}",
+			"{% for n in ns %}{% capture c %}{{ c }}{{ n }}{% endcapture %}{{ 12 | divided_by: n }}{% endfor %}{{ c }}",
+			"{% for n in ns %}{{ forloop.index }}{% if n == k %}{% break %}{% endif %}{% cycle 'p','q','r' %}{% endfor %}{{ 12 | divided_by: k }}",
+		}
+		for ti, src := range tmpls {
+			for bi, bad := range bads {
+				if !r.Mine() {
+					continue
+				}
+				c := immutCaseT{cfg: engineCfg{}, srcs: []string{src}, envs: []map[string]*V{good, bad},
+					ops: []immutOp{{0, 0, 'R'}, {0, 1, 'R'}, {0, 0, 'R'}, {0, 1, 'S'}, {0, 0, 'F'}, {0, 0, 'R'}}}
+				cl := c.line()
+				res := immutCase(r, c, cl)
+				r.Count(fmt.Sprintf("fixed-family stateful %d/%d", ti, bi))
+				r.Nontrivial(cl)
+				r.Emit(cl, res)
+			}
+		}
+	}
 	nPools, perPool := 60, 8
 	if r.Tier == "thorough" {
 		nPools, perPool = 700, 10
